@@ -27,6 +27,23 @@ impl Pers {
 pub enum Order {
     Seq,
     Bag,
+    /// unspecified order, except that the projection `f` (0: key, 1: value) is non-decreasing
+    /// (the output of `sort_by_key`, and order-preserving sub-sequences of it)
+    KeySorted(u8),
+}
+impl Order {
+    /// What remains of the order information after an operator that keeps sub-sequences in order
+    /// but changes or mixes nothing (filter, unique, tee, identity, inspect).
+    pub fn subseq(self) -> Order {
+        self
+    }
+    /// After an operator that maps items (the sort projection is lost).
+    pub fn mapped(self) -> Order {
+        match self {
+            Order::Seq => Order::Seq,
+            _ => Order::Bag,
+        }
+    }
 }
 
 #[derive(Clone, Debug, PartialEq, Eq, Serialize, Deserialize)]
